@@ -74,3 +74,17 @@ def write_old(path, laser, version: str, layout: str, legacy_class: bool = False
     for name, cal in laser.calibration.items():
         members[f"calibration_{name}"] = cal_record(cal)
     np.savez(path, **members)
+
+
+def rewrite_header_class(path, cls: str) -> None:
+    """a malformed 0.8+ file: the file at `path` (written by the real `npz.save`) with the class name in its
+    tab-separated `header` member replaced by `cls`; every other member is copied unchanged"""
+    with np.load(path) as npz:
+        members = {k: npz[k] for k in npz.files}
+    tokens = str(members["header"]).split("\t")
+    i = tokens.index("class")
+    if i % 2 != 0 or i + 1 >= len(tokens):
+        raise ValueError("unexpected header")
+    tokens[i + 1] = cls
+    members["header"] = np.array("\t".join(tokens))
+    np.savez_compressed(path, **members)
